@@ -13,7 +13,7 @@ import sys
 import ref
 import spaces
 from core import PY, PYS, HorizonHit, Monitor, exc_summary, horizon
-from mon_code import H, CodeMonitor, progs_strata
+from mon_code import H, CodeMonitor, hz, progs_strata
 from strict import LINE_ATTR, code_key, digest64, short, walk_codes
 
 from code_data._line_mapping import from_line_mapping, to_line_mapping
@@ -373,7 +373,7 @@ class C10(CodeMonitor):
         if feats:
             stats.nontriv(key)
         try:
-            with horizon(H):
+            with horizon(hz(code)):
                 m = to_line_mapping(code)
                 stats.transitions += 3
                 lines = dict(m.offset_to_line)
@@ -404,7 +404,7 @@ class C10(CodeMonitor):
             return
         # encode what was decoded (fresh mapping: the decoder's output, unmodified)
         try:
-            with horizon(H):
+            with horizon(hz(code)):
                 m2 = to_line_mapping(code)
                 back = from_line_mapping(m2)
                 stats.transitions += 3
@@ -439,7 +439,7 @@ class C10(CodeMonitor):
             from code_data import CodeData
 
             try:
-                with horizon(H):
+                with horizon(hz(code)):
                     c2 = CodeData.from_code(code).to_code()
                     stats.transitions += 2
             except HorizonHit:
